@@ -295,6 +295,10 @@ spif_tok_eval(spif_tok_t self)
     REQUIRE_RVAL(!SPIF_STR_ISNULL(self->src), FALSE);
 
     pstr = (const char *) SPIF_STR_STR(SPIF_STR(self->src));
+    if (!pstr) {
+        /* A string object without a buffer is the empty string. */
+        pstr = "";
+    }
     len = spif_str_get_len(SPIF_STR(self->src));
 
     if (!SPIF_STR_ISNULL(self->sep)) {
